@@ -50,6 +50,9 @@ func docDiff(id string, doc1 *indexedDocument, doc1Start, doc1End int, doc2 *ind
 	chars2 := doc2.runes[doc2Start:doc2End]
 
 	dmp := diffmatchpatch.New()
+	if verifOn {
+		verifEmit("diffcall", "doc", id, "chars1", chars1, "chars2", chars2)
+	}
 	diffs := dmp.DiffMainRunes(chars1, chars2, false)
 
 	// Recover the words from the previous rune encoding and return the textual diffs.
